@@ -1,6 +1,250 @@
 import BstreamVerif.Model.FileSourceSeq
-import BstreamVerif.Model.Resolver
+/-!
+# C10 — file source delivery is ordered, contiguous, complete
+
+`FileSourceSeq.run` is the sequential meaning of `FileSource.run`: the correspondence check (suite `filesrc`, with
+random preprocess delays, several preprocessor threads and file readers) shows the real pipeline delivers exactly
+this sequence for every timing it samples; the theorems below say what that sequence is, for every store, start
+block, stop block and bundle size.
+-/
 namespace BstreamVerif.Props.C10
-open BstreamVerif
+open BstreamVerif BstreamVerif.FileSourceSeq
+
+/-- the stored blocks of one file that a source started at `cfg.start` is to deliver, in stored order -/
+def eligible (cfg : Cfg) (base : Nat) (blocks : List Blk) : List Blk :=
+  blocks.filter (fun b => decide (cfg.start ≤ b.num) && decide (base ≤ b.num))
+
+/-- every block names the previous delivered block as its parent (`last = ""`: nothing delivered yet) -/
+def linkedFrom (last : Id) : List Blk → Prop
+  | [] => True
+  | b :: r => (last = "" ∨ b.parent = last) ∧ linkedFrom b.id r
+
+def lastId (last : Id) (d : List Blk) : Id := (d.getLast?.map (·.id)).getD last
+
+theorem lastId_nil (l : Id) : lastId l [] = l := rfl
+theorem lastId_cons (l : Id) (b : Blk) (r : List Blk) : lastId l (b :: r) = lastId b.id r := by
+  cases r with
+  | nil => rfl
+  | cons c r =>
+    have h : (c :: r).getLast? = some ((c :: r).getLast (by simp)) := List.getLast?_eq_some_getLast _
+    simp [lastId, List.getLast?_cons_cons, h]
+
+/-- what one file contributes, for any handler budget (no index filtering) -/
+theorem streamFile_spec (cfg : Cfg) (base : Nat) (blocks : List Blk) (last : Id) (budget : Option Nat) (acc : List Blk) :
+    ∃ d, (streamFile cfg true base none blocks last budget acc).1 = acc ++ d ∧
+      d <+: eligible cfg base blocks ∧ linkedFrom last d ∧
+      (streamFile cfg true base none blocks last budget acc).2.1 = lastId last d ∧
+      ((streamFile cfg true base none blocks last budget acc).2.2.2 = none → d = eligible cfg base blocks) ∧
+      (∀ id, (streamFile cfg true base none blocks last budget acc).2.2.2 = some (.nonSequential id) →
+        ∃ b rest, eligible cfg base blocks = d ++ b :: rest ∧ b.id = id ∧ lastId last d ≠ "" ∧ b.parent ≠ lastId last d) ∧
+      ((streamFile cfg true base none blocks last budget acc).2.2.2 = some .handlerErr →
+        ∃ k, budget = some k ∧ d.length = k + 1) ∧
+      (streamFile cfg true base none blocks last budget acc).2.2.2 ≠ some .stopReached ∧
+      (∀ n, (streamFile cfg true base none blocks last budget acc).2.2.2 ≠ some (.waiting n)) := by
+  induction blocks generalizing last budget acc with
+  | nil =>
+    refine ⟨[], ?_⟩
+    simp [streamFile, eligible, linkedFrom, lastId]
+  | cons b rest ih =>
+    unfold streamFile
+    by_cases h1 : b.num < cfg.start
+    · simp only [h1, if_true]
+      have hel : eligible cfg base (b :: rest) = eligible cfg base rest := by
+        unfold eligible; rw [List.filter_cons_of_neg]; simp; omega
+      rw [hel]; exact ih last budget acc
+    · simp only [h1, if_false]
+      by_cases h2 : b.num < base
+      · simp only [h2, if_true]
+        have hel : eligible cfg base (b :: rest) = eligible cfg base rest := by
+          unfold eligible; rw [List.filter_cons_of_neg]; simp; omega
+        rw [hel]; exact ih last budget acc
+      · simp only [h2, if_false]
+        have hel : eligible cfg base (b :: rest) = b :: eligible cfg base rest := by
+          unfold eligible; rw [List.filter_cons_of_pos]; simp; omega
+        rw [hel]
+        simp only [passesFilter, Bool.not_true, Bool.false_eq_true, if_false, Bool.true_and]
+        by_cases h3 : (last != "" && b.parent != last) = true
+        · simp only [h3, if_true]
+          refine ⟨[], by simp, List.nil_prefix, trivial, rfl, by simp, ?_, by simp, by simp, by simp⟩
+          intro id hid
+          simp only [Option.some.injEq, FSEnd.nonSequential.injEq] at hid
+          simp only [Bool.and_eq_true, bne_iff_ne, ne_eq] at h3
+          exact ⟨b, eligible cfg base rest, rfl, hid, by simpa [lastId] using h3.1, by simpa [lastId] using h3.2⟩
+        · simp only [h3, if_false]
+          have hlink : last = "" ∨ b.parent = last := by
+            simp only [Bool.and_eq_true, bne_iff_ne, ne_eq, not_and, Decidable.not_not] at h3
+            by_cases hl : last = ""
+            · exact Or.inl hl
+            · exact Or.inr (h3 hl)
+          cases budget with
+          | none =>
+            simp only [Bool.false_eq_true, if_false]
+            obtain ⟨d, hd1, hd2, hd3, hd4, hd5, hd6, hd7, hd8, hd9⟩ := ih b.id none (acc ++ [b])
+            refine ⟨b :: d, by rw [hd1]; simp, ?_, ⟨hlink, hd3⟩, by rw [hd4, lastId_cons], ?_, ?_, ?_, hd8, hd9⟩
+            · exact List.prefix_cons_inj b |>.mpr hd2
+            · intro he; rw [hd5 he]
+            · intro id hid
+              obtain ⟨x, r, hx1, hx2, hx3, hx4⟩ := hd6 id hid
+              exact ⟨x, r, by rw [hx1]; simp, hx2, by rw [lastId_cons]; exact hx3, by rw [lastId_cons]; exact hx4⟩
+            · intro he; obtain ⟨k, hk, _⟩ := hd7 he; cases hk
+          | some k =>
+            cases k with
+            | zero =>
+              simp only [Bool.false_eq_true, if_false]
+              refine ⟨[b], rfl, ?_, ⟨hlink, trivial⟩, rfl, by simp, by simp, ?_, by simp, by simp⟩
+              · exact List.prefix_cons_inj b |>.mpr List.nil_prefix
+              · intro _; exact ⟨0, rfl, rfl⟩
+            | succ k =>
+              simp only [Bool.false_eq_true, if_false]
+              obtain ⟨d, hd1, hd2, hd3, hd4, hd5, hd6, hd7, hd8, hd9⟩ := ih b.id (some k) (acc ++ [b])
+              refine ⟨b :: d, by rw [hd1]; simp, ?_, ⟨hlink, hd3⟩, by rw [hd4, lastId_cons], ?_, ?_, ?_, hd8, hd9⟩
+              · exact List.prefix_cons_inj b |>.mpr hd2
+              · intro he; rw [hd5 he]
+              · intro id hid
+                obtain ⟨x, r, hx1, hx2, hx3, hx4⟩ := hd6 id hid
+                exact ⟨x, r, by rw [hx1]; simp, hx2, by rw [lastId_cons]; exact hx3, by rw [lastId_cons]; exact hx4⟩
+              · intro he
+                obtain ⟨k', hk, hl⟩ := hd7 he
+                simp only [Option.some.injEq] at hk
+                exact ⟨k + 1, rfl, by simp [hl, hk]⟩
+
+
+theorem linkedFrom_append (l : Id) (d1 d2 : List Blk) :
+    linkedFrom l (d1 ++ d2) ↔ linkedFrom l d1 ∧ linkedFrom (lastId l d1) d2 := by
+  induction d1 generalizing l with
+  | nil => simp [linkedFrom, lastId]
+  | cons b r ih => simp only [List.cons_append, linkedFrom, lastId_cons, ih, and_assoc]
+
+theorem lastId_append (l : Id) (d1 d2 : List Blk) : lastId l (d1 ++ d2) = lastId (lastId l d1) d2 := by
+  induction d1 generalizing l with
+  | nil => rfl
+  | cons b r ih => simp only [List.cons_append, lastId_cons, ih]
+
+/-- everything the store holds for a source started at `cfg.start`: the eligible blocks of the consecutive
+    bundles from `base` until a bundle is missing or the bundle holding the stop block was read -/
+def storedFrom (cfg : Cfg) (bundles : List Bundle) : Nat → Nat → List Blk
+  | 0, _ => []
+  | fuel + 1, base =>
+    match findBundle bundles base with
+    | none => []
+    | some bu =>
+      eligible cfg base bu.blocks ++
+        (if cfg.stop != 0 && base + cfg.bundleSize > cfg.stop then [] else storedFrom cfg bundles fuel (base + cfg.bundleSize))
+
+/-- **C10 (sequential content)**: the source delivers a prefix of the stored eligible blocks in stored order, each
+    once, parent-linked; the whole of it when it ends with stop-block-reached (or waits for a missing file); and on
+    a non-sequential error it stopped exactly before the offending block. -/
+theorem runPlain_spec (cfg : Cfg) (bundles : List Bundle) (failAt : Option Nat) (fuel base : Nat) (last : Id)
+    (budget : Option Nat) (acc : List Blk) :
+    ∃ d, (runPlain cfg bundles failAt fuel base last budget acc).1 = acc ++ d ∧
+      d <+: storedFrom cfg bundles fuel base ∧ linkedFrom last d ∧
+      ((runPlain cfg bundles failAt fuel base last budget acc).2 = .stopReached → d = storedFrom cfg bundles fuel base) ∧
+      (∀ n, (runPlain cfg bundles failAt fuel base last budget acc).2 = .waiting n → d = storedFrom cfg bundles fuel base) ∧
+      (∀ id, (runPlain cfg bundles failAt fuel base last budget acc).2 = .nonSequential id →
+        ∃ b rest, storedFrom cfg bundles fuel base = d ++ b :: rest ∧ b.id = id ∧ lastId last d ≠ "" ∧
+          b.parent ≠ lastId last d) := by
+  induction fuel generalizing base last budget acc with
+  | zero =>
+    refine ⟨[], by simp [runPlain], by simp [storedFrom], trivial, ?_, ?_, ?_⟩
+    · intro _; rfl
+    · intro _ _; rfl
+    · intro id h; simp [runPlain] at h
+  | succ fuel ih =>
+    unfold runPlain storedFrom
+    cases hb : findBundle bundles base with
+    | none => exact ⟨[], by simp, by simp, trivial, by simp, by simp, by simp⟩
+    | some bu =>
+      simp only
+      obtain ⟨d, hd1, hd2, hd3, hd4, hd5, hd6, hd7, hd8, hd9⟩ := streamFile_spec cfg base bu.blocks last budget acc
+      rcases hsf : streamFile cfg true base none bu.blocks last budget acc with ⟨acc', last', budget', e⟩
+      rw [hsf] at hd1 hd4 hd5 hd6 hd7 hd8 hd9
+      simp only at hd1 hd4 hd5 hd6 hd7 hd8 hd9
+      cases e with
+      | some e =>
+        simp only
+        refine ⟨d, hd1, ?_, hd3, ?_, ?_, ?_⟩
+        · exact List.IsPrefix.trans hd2 (List.prefix_append _ _)
+        · intro he; subst he; exact absurd rfl hd8
+        · intro n he; subst he; exact absurd rfl (hd9 n)
+        · intro id he; subst he
+          obtain ⟨b, rest, h1, h2, h3, h4⟩ := hd6 id rfl
+          exact ⟨b, _, by rw [h1, List.append_assoc, List.cons_append], h2, h3, h4⟩
+      | none =>
+        simp only
+        have hde := hd5 rfl
+        by_cases hs : (cfg.stop != 0 && decide (base + cfg.bundleSize > cfg.stop)) = true
+        · simp only [hs, if_true]
+          exact ⟨d, hd1, by rw [hde]; simp, hd3, by intro _; rw [hde]; simp, by simp, by simp⟩
+        · simp only [hs, Bool.false_eq_true, if_false]
+          obtain ⟨d2, h1, h2, h3, h4, h5, h6⟩ := ih (base + cfg.bundleSize) last' budget' acc'
+          subst hd4
+          refine ⟨d ++ d2, by rw [h1, hd1]; simp, ?_, (linkedFrom_append _ _ _).mpr ⟨hd3, h3⟩, ?_, ?_, ?_⟩
+          · rw [hde]; exact (List.prefix_append_right_inj _).mpr h2
+          · intro he; rw [h4 he, hde]
+          · intro n he; rw [h5 n he, hde]
+          · intro id he
+            obtain ⟨b, rest, g1, g2, g3, g4⟩ := h6 id he
+            exact ⟨b, rest, by rw [g1, hde]; simp, g2, by rw [lastId_append]; exact g3, by rw [lastId_append]; exact g4⟩
+
+
+/-- nothing below the start block is part of what the source is to deliver -/
+theorem storedFrom_ge_start (cfg : Cfg) (bundles : List Bundle) (fuel base : Nat) :
+    ∀ b ∈ storedFrom cfg bundles fuel base, cfg.start ≤ b.num := by
+  induction fuel generalizing base with
+  | zero => simp [storedFrom]
+  | succ n ih =>
+    unfold storedFrom
+    split
+    · simp
+    · intro b hb
+      simp only [List.mem_append] at hb
+      rcases hb with hb | hb
+      · simp only [eligible, List.mem_filter, Bool.and_eq_true, decide_eq_true_eq] at hb
+        exact hb.2.1
+      · split at hb
+        · simp at hb
+        · exact ih _ b hb
+
+/-- **C10 for a whole run** (any store, start, stop, bundle size ≠ 0, handler budget) -/
+theorem run_spec (cfg : Cfg) (bundles : List Bundle) (failAt : Option Nat) (hsz : cfg.bundleSize ≠ 0) :
+    let stored := storedFrom cfg bundles (bundles.length + 2) (lowBoundary cfg.start cfg.bundleSize)
+    (run cfg bundles failAt).1 <+: stored ∧ linkedFrom "" (run cfg bundles failAt).1 ∧
+    (∀ b ∈ (run cfg bundles failAt).1, cfg.start ≤ b.num) ∧
+    ((run cfg bundles failAt).2 = .stopReached → (run cfg bundles failAt).1 = stored) ∧
+    (∀ id, (run cfg bundles failAt).2 = .nonSequential id →
+      ∃ b rest, stored = (run cfg bundles failAt).1 ++ b :: rest ∧ b.id = id ∧
+        b.parent ≠ lastId "" (run cfg bundles failAt).1) := by
+  intro stored
+  have hb : (cfg.bundleSize == 0) = false := by simp [hsz]
+  obtain ⟨d, h1, h2, h3, h4, _, h6⟩ :=
+    runPlain_spec cfg bundles failAt (bundles.length + 2) (lowBoundary cfg.start cfg.bundleSize) "" failAt []
+  have hr : run cfg bundles failAt =
+      runPlain cfg bundles failAt (bundles.length + 2) (lowBoundary cfg.start cfg.bundleSize) "" failAt [] := by
+    unfold run; simp [hb]
+  rw [hr]
+  simp only [List.nil_append] at h1
+  rw [h1]
+  refine ⟨h2, h3, ?_, h4, ?_⟩
+  · intro b hb
+    exact storedFrom_ge_start cfg bundles _ _ b (h2.subset hb)
+  · intro id he
+    obtain ⟨b, rest, g1, g2, _, g4⟩ := h6 id he
+    exact ⟨b, rest, g1, g2, g4⟩
+
+/-- a handler error is returned for the block the handler was given: that block is the last one delivered -/
+theorem handler_error_stops_file (cfg : Cfg) (base : Nat) (blocks : List Blk) (last : Id) (budget : Option Nat)
+    (acc : List Blk) (h : (streamFile cfg true base none blocks last budget acc).2.2.2 = some .handlerErr) :
+    ∃ k d, budget = some k ∧ (streamFile cfg true base none blocks last budget acc).1 = acc ++ d ∧ d.length = k + 1 := by
+  obtain ⟨d, h1, _, _, _, _, _, h7, _, _⟩ := streamFile_spec cfg base blocks last budget acc
+  obtain ⟨k, hk, hl⟩ := h7 h
+  exact ⟨k, d, hk, h1, hl⟩
+
+/-! Non-vacuity: a two-bundle store with a break, a start inside the first bundle and a stop block -/
+private def bA : Blk := { id := "a", num := 1, parent := "z", lib := 0 }
+private def bB : Blk := { id := "b", num := 2, parent := "a", lib := 0 }
+private def bC : Blk := { id := "c", num := 3, parent := "b", lib := 0 }
+private def bX : Blk := { id := "x", num := 4, parent := "q", lib := 0 }
+example : run ⟨2, 3, 2, []⟩ [⟨0, [bA]⟩, ⟨2, [bB, bC]⟩] none = ([bB, bC], .stopReached) := by decide
+example : run ⟨2, 0, 2, []⟩ [⟨0, [bA]⟩, ⟨2, [bB, bC]⟩, ⟨4, [bX]⟩] none = ([bB, bC], .nonSequential "x") := by decide
 
 end BstreamVerif.Props.C10
